@@ -472,6 +472,14 @@ def rewrite_fn(text, name, contract, applied):
             raise LiftError(f"lost anchor: statement matching /{anchor}/ in fn `{name}` has no terminating `;`")
         ptxt = "\n".join(l + "  // @ghost" for l in ptxt.split("\n"))
         body = body[:k + 1] + "\n        proof {  // @ghost\n" + ptxt + "\n        }  // @ghost" + body[k + 1:]
+    for anchor, ptxt in contract.get("proof_before", []):
+        bmask = code_mask(body)
+        hit = find_code(body, bmask, anchor)
+        if hit is None:
+            raise LiftError(f"lost anchor: fn `{name}` has no statement matching /{anchor}/ (needed to place a proof block)")
+        k = body.rfind("\n", 0, hit[0]) + 1
+        ptxt = "\n".join(l + "  // @ghost" for l in ptxt.split("\n"))
+        body = body[:k] + "        proof {  // @ghost\n" + ptxt + "\n        }  // @ghost\n" + body[k:]
     new = sig.rstrip() + "\n" + spec + "    {" + pre_stmts + body + "}"
     return text[:ls] + new + text[bc + 1:]
 
